@@ -593,6 +593,18 @@ def m_slice_index(ex, c, a, m):
     return SliceRef(base, lo, hi)
 
 
+@model(r'core::slice::<impl \[.+\]>::(get|get_mut)::<usize>|Vec::<.+>::(get|get_mut)::<usize>')
+def m_slice_get(ex, c, a, m):
+    v = d(a[0])
+    i = ex.concretize(a[1], len(v) - 1) if len(v) else None
+    if i is None:
+        return NONE()
+    base = a[0]
+    while isinstance(base.get(), Ref):
+        base = base.get()
+    return Some(base.field(i))
+
+
 @model(r'core::slice::<impl \[u8\]>::copy_from_slice')
 def m_copy_from_slice(ex, c, a, m):
     dst, src = a[0], as_S(a[1])
